@@ -131,6 +131,15 @@ fn cmd_replay(a: &Args) -> Result<i32, String> {
     let text = fs::read_to_string(file).map_err(|e| format!("{}: {}", file, e))?;
     let first = text.lines().find(|l| !l.trim().is_empty() && !l.starts_with('#')).unwrap_or("");
     if first.trim() == L2_HEADER {
+        // `env NAME=VALUE` lines: process environment under which the
+        // library is (first) used — set before anything touches it
+        for l in text.lines() {
+            if let Some(kv) = l.strip_prefix("env ") {
+                if let Some((k, v)) = kv.trim().split_once('=') {
+                    std::env::set_var(k, v);
+                }
+            }
+        }
         let fam = text
             .lines()
             .find_map(|l| l.strip_prefix("family "))
@@ -301,6 +310,7 @@ fn real_main() -> Result<i32, String> {
         "gen" => cmd_gen(&a),
         "free" => free::cmd_free(&a.kv, &a.flags),
         "refeval" => oracle::refeval_main(),
+        "refserver" => oracle::refserver_main(),
         "marathon" => marathon::cmd_marathon(a.u64("--ops", 1 << 20)?, a.u64("--mode", 7)? as u8),
         "hooks" => {
             println!("{}", engine::hooks_compiled());
